@@ -18,6 +18,10 @@ enum BodyKind {
     MapState,
     /// shuffle, then map(x + state)
     ShuffleMapState,
+    /// a single-replica stage (replication One, identity map), then shuffle and map(x + state):
+    /// the parallel stage that reads the state has exactly one upstream replica, which is remote
+    /// for every host but one
+    OneShuffleMapState,
     /// group_by(x%2).reduce(+) then map(v + state)
     GroupReduceState,
     /// an inner replay (2 rounds, own state) whose result is added to the outer state
@@ -54,6 +58,7 @@ fn body(s: DS<i64>, state: IterationStateHandle<i64>, kind: BodyKind) -> DS<i64>
     match kind {
         BodyKind::MapState => erase(probe(s, PROBE_ID).map(read)),
         BodyKind::ShuffleMapState => erase(probe(s.shuffle(), PROBE_ID).map(read)),
+        BodyKind::OneShuffleMapState => erase(probe(s.replication(renoir::Replication::One).map(|x| x).shuffle(), PROBE_ID).map(read)),
         BodyKind::GroupReduceState => erase(probe(erase(s.group_by(|x: &i64| x % 2).reduce(|a, b| *a += b).drop_key()), PROBE_ID).map(read)),
         BodyKind::Nested => {
             let inner = s.shuffle().replay(
@@ -115,7 +120,7 @@ fn reference(input: &[i64], kind: BodyKind, lk: LoopKind, max: usize, limit: i64
     loop {
         let st = *states.last().unwrap();
         let base: Vec<i64> = match kind {
-            BodyKind::MapState | BodyKind::ShuffleMapState => cur.clone(),
+            BodyKind::MapState | BodyKind::ShuffleMapState | BodyKind::OneShuffleMapState => cur.clone(),
             BodyKind::GroupReduceState => {
                 let mut m: BTreeMap<i64, i64> = BTreeMap::new();
                 for x in &cur {
@@ -323,7 +328,7 @@ fn build(tier: Tier) -> Vec<Scenario> {
         vec![Layout::Local(1), Layout::Local(2), Layout::Local(3), Layout::Remote(vec![1, 1]), Layout::Remote(vec![2, 1])]
     };
     for lk in [LoopKind::Replay, LoopKind::Iterate] {
-        for kind in [BodyKind::MapState, BodyKind::ShuffleMapState, BodyKind::GroupReduceState, BodyKind::Nested, BodyKind::NestedInnerState, BodyKind::NestedCondStop, BodyKind::NestedShuffleInner] {
+        for kind in [BodyKind::MapState, BodyKind::ShuffleMapState, BodyKind::OneShuffleMapState, BodyKind::GroupReduceState, BodyKind::Nested, BodyKind::NestedInnerState, BodyKind::NestedCondStop, BodyKind::NestedShuffleInner] {
             for layout in &layouts {
                 let remote = layout.hosts() > 1;
                 for (input, max, limit) in [
